@@ -124,9 +124,50 @@ structure TxReached (env : Env) : Prop where
   notStf : env.cond "Keeper.ExecuteClaim: externalClaim.(type) is *types.MsgSendToFxClaim" 0 = false
   isBc : env.cond "Keeper.ExecuteClaim: externalClaim.(type) is *types.MsgBridgeCallClaim" 0 = true
   notModule : env.ok "k.ak.GetAccount" 0 = true ∨ env.cond "Keeper.BridgeCallHandler: ok" 0 = false
-  /-- `DeletePendingExecuteClaim` and `CreateBridgeAccount` have no error result: they cannot return an error (the two
-  fields only keep the ghost list `failed` out of the case analysis) -/
-  noErr : env.ok "k.DeletePendingExecuteClaim" 0 = true ∧ env.ok "k.CreateBridgeAccount" 0 = true
+
+/-- the ghost list `St.failed` kept FOLDED.  A call WITHOUT an error result (`DeletePendingExecuteClaim`,
+`CreateBridgeAccount`) cannot influence the control flow: whether the environment flags it as failing only shows in the
+ghost list, so a proof whose statement does not mention `failed` need not fork on it.  `mf` is never unfolded. -/
+def mf (c : Ctx) (b : Bool) (l : List Nat) : List Nat :=
+  match c with
+  | .cache k => if b then k :: l else l
+  | _ => l
+
+def gmark (st : St) (c : Ctx) (b : Bool) : St := { st with failed := mf c b st.failed }
+
+theorem gmark_mk (o : List Tok) (cs : List (Nat × Ctx × List Tok)) (bad : List Nat) (evm : List (Nat × EvmKind)) (f : List Nat)
+    (c : Ctx) (b : Bool) : gmark ⟨o, cs, bad, evm, f⟩ c b = ⟨o, cs, bad, evm, mf c b f⟩ := rfl
+
+theorem markFailed_gmark (st : St) (c : Ctx) (b : Bool) : markFailed st c b = gmark st c b := by
+  cases c <;> simp [markFailed, gmark, mf]
+  split <;> rfl
+
+/-- a call with an error variable: as `exec_call` -/
+theorem exec_call_some (env : Env) (name : String) (c : Ctx) (v : Var) (resp : Option Var) (args : List Var) (it : Nat) (st : St) :
+    exec env (.call name c (some v) resp args) it st =
+      if env.panics name it then (.panic, markFailed (writeMany st c [⟨name, it, args.map st.isOk⟩]) c true)
+      else if env.ok name it then
+        (if env.evm name it = .ok ∨ resp = none then
+          (.norm, setEvm (setVar (writeMany st c [⟨name, it, args.map st.isOk⟩]) (some v) true) resp (env.evm name it))
+        else (.norm, markFailed (setEvm (setVar (writeMany st c [⟨name, it, args.map st.isOk⟩]) (some v) true) resp (env.evm name it)) c true))
+      else (.norm, markFailed (setEvm (setVar (writeMany st c [⟨name, it, args.map st.isOk⟩]) (some v) false) resp (env.evm name it)) c true) :=
+  exec_call env name c (some v) resp args it st
+
+/-- a call WITHOUT error variable and response: no fork on its result, the ghost list stays folded -/
+theorem exec_call_none (env : Env) (name : String) (c : Ctx) (args : List Var) (it : Nat) (st : St) :
+    exec env (.call name c none none args) it st =
+      if env.panics name it then (.panic, markFailed (writeMany st c [⟨name, it, args.map st.isOk⟩]) c true)
+      else (.norm, gmark (writeMany st c [⟨name, it, args.map st.isOk⟩]) c (!env.ok name it)) := by
+  rw [exec_call]
+  cases env.panics name it <;> cases hok : env.ok name it <;> simp [setVar, setEvm, markFailed_gmark]
+  cases c <;> rfl
+
+/-- `c18eval` that does not fork on the result of calls without an error variable -/
+macro "c18evalG" : tactic => `(tactic| simp [run, seqs, exec_seq, exec_block, exec_inl, exec_skip, exec_open, exec_commit, exec_call_some, exec_call_none, exec_panic,
+  exec_setErr, exec_ite, exec_brk, exec_cont, exec_ret, seqK_norm, seqK_brk, seqK_cont, seqK_ret, seqK_panic, seqK_ite,
+  blockK_norm, blockK_brk, blockK_cont, blockK_ret, blockK_panic, blockK_ite, inlK_norm, inlK_ret, inlK_brk, inlK_cont,
+  inlK_panic_none, inlK_panic_some, inlK_ite, writeMany, isOpen, markFailed, gmark_mk, setVar, setEvm, evalCond, St.isOk, St.evmOf,
+  retOk, commitCache, St.init, List.filter_cons, List.filter_nil, *])
 
 open Classical in
 /-- every path of the executeClaim TRANSACTION for an inbound bridge call: a hard failure leaves NOTHING (the claim stays
@@ -137,21 +178,12 @@ def TxOutcome (env : Env) (r : Flow × St) : Prop :=
   (¬ txHardFails env ∧ r.1 = .ret (env.ok "m.PackOutput" 0) ∧
     ((bciCachedFails env ∧ r.2.outer = bciDesignated env) ∨ (¬ bciCachedFails env ∧ r.2.outer = bciSuccess env)))
 
-set_option maxHeartbeats 800000 in
-theorem tx_total (env : Env) (hp : NoPanic env) (hr : TxReached env) : TxOutcome env (run env executeClaimTxProg) := by
-  have k1 := tx_loop1_eq env hp
-  have k2 := tx_loop2_eq env hp
-  have hp' := fun n i => hp n i
-  obtain ⟨r1, r2, r3, r4, r5, r6, r7, r8, r9⟩ := hr
-  unfold executeClaimTxProg at k1 k2 ⊢
-  simp only [seqs, loopOf] at k1 k2
-  simp only [run, seqs]
-  generalize hL1 : Stmt.loop 1 _ = L1 at k1 k2 ⊢
-  generalize hL2 : Stmt.loop 2 _ = L2 at k1 k2 ⊢
-  have k1' := k1 L1 (by simp)
-  have k2' := k2 L2 (by simp)
-  clear k1 k2 hL1 hL2 hp
-  c18eval
+set_option hygiene false in
+/-- the proof script shared by the two halves of `tx_total` (the sender has no account / the sender's account is not a
+module account): evaluate the front, replace the credits (`loop 1`) and the conversions (`loop 2`) by their summaries,
+evaluate the rest on every path -/
+macro "c18txBody" : tactic => `(tactic| (
+  c18evalG
   repeat' c18split
   all_goals try (simp_all; done)
   all_goals (
@@ -163,11 +195,10 @@ theorem tx_total (env : Env) (hp : NoPanic env) (hr : TxReached env) : TxOutcome
     simp only at h0
     subst h0
     rcases k with ⟨hall1, h1, ⟨ts, h2⟩⟩ | ⟨hall1, h1, h2, h3⟩ <;> simp only at h1 h2 <;> subst h1 h2
-    · c18eval
+    · c18evalG
       exact Or.inl ⟨Or.inl hall1, by simp⟩
-    · simp only at h3
-      subst h3
-      c18eval
+    · clear h3
+      c18evalG
       generalize hr : exec env L2 0 _ = q2
       have k := k2' _ _ _ hr rfl rfl
       clear hr
@@ -175,13 +206,67 @@ theorem tx_total (env : Env) (hp : NoPanic env) (hr : TxReached env) : TxOutcome
       obtain ⟨h1, h3⟩ := k
       simp only at h1 h3
       subst h1
-      rcases h3 with ⟨hall2, h3, h4, h5⟩ | ⟨hall2, h3, ⟨ts, h4⟩, h5⟩ <;> subst h3 h4 h5
-      · c18eval
+      rcases h3 with ⟨hall2, h3, h4, _⟩ | ⟨hall2, h3, ⟨ts, h4⟩, _⟩ <;> subst h3 h4
+      · c18evalG
         repeat' c18split
         all_goals (simp [TxOutcome, txHardFails, txRefundFails, txMoves, bciCachedFails, bciSuccess, bciDesignated, bciPre, hall1, hall2]; try simp_all)
-      · c18eval
+      · c18evalG
         repeat' c18split
-        all_goals (simp [TxOutcome, txHardFails, txRefundFails, txMoves, bciCachedFails, bciSuccess, bciDesignated, bciPre, hall1, hall2]; try simp_all))
+        all_goals (simp [TxOutcome, txHardFails, txRefundFails, txMoves, bciCachedFails, bciSuccess, bciDesignated, bciPre, hall1, hall2]; try simp_all))))
+
+set_option maxHeartbeats 800000 in
+/-- first half: the sender of the bridge call has no account yet (or a plain one: `GetAccount` "succeeds" in the sense of
+the model — the module-account test is not reached) -/
+theorem tx_total_acc (env : Env) (hp : NoPanic env)
+    (r1 : env.cond "Run: m.router == nil" 0 = false) (r2 : env.ok "m.UnpackInput" 0 = true) (r3 : env.cond "Run: has" 0 = true)
+    (r4 : env.cond "Keeper.ExecuteClaim: found" 0 = true)
+    (r5 : env.cond "Keeper.ExecuteClaim: externalClaim.(type) is *types.MsgSendToFxClaim" 0 = false)
+    (r6 : env.cond "Keeper.ExecuteClaim: externalClaim.(type) is *types.MsgBridgeCallClaim" 0 = true)
+    (r7 : env.ok "k.ak.GetAccount" 0 = true) : TxOutcome env (run env executeClaimTxProg) := by
+  have k1 := tx_loop1_eq env hp
+  have k2 := tx_loop2_eq env hp
+  have hp' := fun n i => hp n i
+  unfold executeClaimTxProg at k1 k2 ⊢
+  simp only [seqs, loopOf] at k1 k2
+  simp only [run, seqs]
+  generalize hL1 : Stmt.loop 1 _ = L1 at k1 k2 ⊢
+  generalize hL2 : Stmt.loop 2 _ = L2 at k1 k2 ⊢
+  have k1' := k1 L1 (by simp)
+  have k2' := k2 L2 (by simp)
+  clear k1 k2 hL1 hL2 hp
+  c18txBody
+
+set_option maxHeartbeats 800000 in
+/-- second half: the account exists and is not a module account -/
+theorem tx_total_notmod (env : Env) (hp : NoPanic env)
+    (r1 : env.cond "Run: m.router == nil" 0 = false) (r2 : env.ok "m.UnpackInput" 0 = true) (r3 : env.cond "Run: has" 0 = true)
+    (r4 : env.cond "Keeper.ExecuteClaim: found" 0 = true)
+    (r5 : env.cond "Keeper.ExecuteClaim: externalClaim.(type) is *types.MsgSendToFxClaim" 0 = false)
+    (r6 : env.cond "Keeper.ExecuteClaim: externalClaim.(type) is *types.MsgBridgeCallClaim" 0 = true)
+    (r7 : env.ok "k.ak.GetAccount" 0 = false) (r8 : env.cond "Keeper.BridgeCallHandler: ok" 0 = false) :
+    TxOutcome env (run env executeClaimTxProg) := by
+  have k1 := tx_loop1_eq env hp
+  have k2 := tx_loop2_eq env hp
+  have hp' := fun n i => hp n i
+  unfold executeClaimTxProg at k1 k2 ⊢
+  simp only [seqs, loopOf] at k1 k2
+  simp only [run, seqs]
+  generalize hL1 : Stmt.loop 1 _ = L1 at k1 k2 ⊢
+  generalize hL2 : Stmt.loop 2 _ = L2 at k1 k2 ⊢
+  have k1' := k1 L1 (by simp)
+  have k2' := k2 L2 (by simp)
+  clear k1 k2 hL1 hL2 hp
+  c18txBody
+
+/-- every path of the executeClaim transaction for a pending inbound bridge call — NO hypothesis on the calls that have no
+error result (`DeletePendingExecuteClaim`, `CreateBridgeAccount`): their flag in `Env` only feeds the ghost list -/
+theorem tx_total (env : Env) (hp : NoPanic env) (hr : TxReached env) : TxOutcome env (run env executeClaimTxProg) := by
+  obtain ⟨r1, r2, r3, r4, r5, r6, r7⟩ := hr
+  by_cases h : env.ok "k.ak.GetAccount" 0 = true
+  · exact tx_total_acc env hp r1 r2 r3 r4 r5 r6 h
+  · rcases r7 with r7 | r7
+    · exact absurd r7 h
+    · exact tx_total_notmod env hp r1 r2 r3 r4 r5 r6 (by simpa using h) r7
 
 /-! ## gov `EndBlocker`, first part: the inactive proposals and the `AfterProposalFailedMinDeposit` hook -/
 
@@ -287,7 +372,7 @@ theorem att_strip (env : Env) (it : Nat) (hp : NoPanic env) :
   all_goals simp [attDesignated, attPre, attPost]
 
 theorem ibc_strip (env : Env) (hp : NoPanic env) (hr : ibcReached env)
-    (hsync : env.cond "RecvPacket: ack != nil" 0 = true) (hsync' : env.cond "RecvPacket: ack == nil" 0 = false)
+    (hsync' : env.cond "RecvPacket: ack == nil" 0 = false)
     (hw : env.ok "k.ChannelKeeper.WriteAcknowledgement" 0 = true) (hf : ibcAppFails env ∨ ibcHookFails env) :
     (run env (strip 2 recvPacketProg)).2.outer = ibcDesignated := by
   have hp' := fun n i => hp n i
